@@ -15,12 +15,12 @@ EXTENDS Integers, FiniteSets, TLC
 
 CONSTANTS NIf,        \* number of configured interfaces
           Kinds,      \* what may happen to an interface at a (re)start: "ok", "fail", "late" (up after the time-out)
-          Req,        \* requester threads
-          RKind,      \* Req -> "restart" | "shutdown"
+          Req,        \* requester threads: a subset of {"res1", "res2", "res3", "shut1", "shut2"}
           Repaired, FixNoIf,
           Crashes     \* BOOLEAN: a serving loop may fail
 
 Ifs == 1 .. NIf
+RKind == [r \in Req |-> IF r \in {"res1", "res2", "res3"} THEN "restart" ELSE "shutdown"]
 Restarters == {r \in Req : RKind[r] = "restart"}
 Stoppers == {r \in Req : RKind[r] = "shutdown"}
 MaxGen == 1 + Cardinality(Restarters)
@@ -30,14 +30,14 @@ VARIABLES gen, mpc, kind, rflag, stopping, lock, mods, ifdict, reg, ipc, isreq, 
           discAttr, discOpen, given, dthr, rpc, rdict, rseen, rsize, rcur,
           hooks, downlog, reports, ann,
           \* witnesses of the properties (written, never read by the design)
-          annOK, portsOK, bootAfterShut, rexc, racc
+          annOK, portsOK, bootAfterShut, rexc, racc, crashed
 
 vars == <<gen, mpc, kind, rflag, stopping, lock, mods, ifdict, reg, ipc, isreq, isdone, trig, failed,
           discAttr, discOpen, given, dthr, rpc, rdict, rseen, rsize, rcur, hooks, downlog, reports, ann,
-          annOK, portsOK, bootAfterShut, rexc, racc>>
+          annOK, portsOK, bootAfterShut, rexc, racc, crashed>>
 
 mainv == <<gen, mpc, kind, mods, hooks, downlog, reports, ann, annOK, bootAfterShut>>
-ifv == <<ipc, isdone, trig, failed>>
+ifv == <<ipc, isdone, trig, failed, crashed>>
 reqv == <<rpc, rdict, rseen, rsize, rcur, rexc, racc>>
 discv == <<discAttr, discOpen, given, dthr, portsOK>>
 
@@ -50,7 +50,7 @@ Init == /\ gen = 0 /\ mpc = "loop" /\ kind = [i \in Ifs |-> "ok"] /\ rflag = TRU
         /\ rsize = [r \in Req |-> 0] /\ rcur = [r \in Req |-> 0]
         /\ hooks = [g \in Gens |-> 0] /\ downlog = 0 /\ reports = {} /\ ann = {}
         /\ annOK = TRUE /\ portsOK = TRUE /\ bootAfterShut = FALSE /\ rexc = [r \in Req |-> FALSE]
-        /\ racc = [r \in Req |-> -1]
+        /\ racc = [r \in Req |-> -1] /\ crashed = {}
 
 (* an interface whose socket is open / which accepts connections *)
 SocketOpen(i) == ipc[i] \in {"bound", "registered", "preserve", "serving", "served", "skip", "crashed"}
@@ -97,7 +97,7 @@ M_Dict == /\ mpc = "dict"
 (* with lock: one thread per interface *)
 M_Spawn == /\ mpc = "spawn" /\ lock = "free"
            /\ ipc' = [i \in Ifs |-> "new"] /\ isreq' = [i \in Ifs |-> FALSE] /\ isdone' = [i \in Ifs |-> FALSE]
-           /\ trig' = {} /\ failed' = {} /\ mpc' = "wait"
+           /\ trig' = {} /\ failed' = {} /\ crashed' = {} /\ mpc' = "wait"
            /\ UNCHANGED <<gen, kind, rflag, stopping, lock, mods, ifdict, reg, hooks, downlog, reports, ann, annOK,
                           bootAfterShut>> /\ UNCHANGED <<reqv, discv>>
 (* interfaces_started.wait(): all triggers, or the 12 s time-out (only a late interface makes it elapse) *)
@@ -109,8 +109,7 @@ M_Wait == /\ mpc = "wait"
 (* error lines for everything that is not registered; then the decision *)
 M_Report == /\ mpc = "report"
             /\ reports' = Ifs \ reg
-            /\ mpc' = IF Repaired /\ stopping THEN "join"
-                      ELSE IF reg = {} THEN "noif" ELSE "prop"
+            /\ mpc' = IF reg = {} /\ ~(Repaired /\ stopping) THEN "noif" ELSE "prop"
             /\ UNCHANGED <<gen, kind, rflag, stopping, lock, mods, ifdict, reg, hooks, downlog, ann, annOK,
                            bootAfterShut>> /\ UNCHANGED <<ifv, isreq, reqv, discv>>
 M_NoIf == /\ mpc = "noif"
@@ -119,26 +118,36 @@ M_NoIf == /\ mpc = "noif"
           /\ UNCHANGED <<gen, kind, rflag, stopping, lock, ifdict, reg, hooks, downlog, reports, ann, annOK,
                          bootAfterShut>> /\ UNCHANGED <<ifv, isreq, reqv, discv>>
 (* _interfaces property and 'startup done with interface(s)' *)
-M_Prop == /\ mpc = "prop"
-          /\ ann' = reg /\ annOK' = (annOK /\ reg = {i \in Ifs : Accepting(i)})
+M_Prop == /\ mpc = "prop" /\ ~Repaired
+          /\ ann' = reg /\ annOK' = (annOK /\ reg \subseteq {i \in Ifs : Accepting(i) \/ i \in crashed})
           /\ mpc' = "disc"
           /\ UNCHANGED <<gen, kind, rflag, stopping, lock, mods, ifdict, reg, hooks, downlog, reports, bootAfterShut>>
           /\ UNCHANGED <<ifv, isreq, reqv, discv>>
+(* repaired: with self._lock: if not self._stopping: property, log line, responder *)
+M_PropDisc == /\ mpc = "prop" /\ Repaired /\ lock = "free"
+              /\ IF stopping
+                 THEN UNCHANGED <<ann, annOK, discv>>
+                 ELSE /\ ann' = reg /\ annOK' = (annOK /\ reg \subseteq {i \in Ifs : Accepting(i) \/ i \in crashed})
+                      /\ discAttr' = gen /\ discOpen' = discOpen \cup {gen}
+                      /\ given' = [given EXCEPT ![gen] = reg] /\ dthr' = [dthr EXCEPT ![gen] = "created"]
+                      /\ UNCHANGED portsOK
+              /\ mpc' = "join"
+              /\ UNCHANGED <<gen, kind, rflag, stopping, lock, mods, ifdict, reg, hooks, downlog, reports, bootAfterShut>>
+              /\ UNCHANGED <<ifv, isreq, reqv>>
 (* self.discovery = UDPListener(...); mkthread(self.discovery.run) *)
-M_Disc == /\ mpc = "disc" /\ (Repaired => lock = "free")
-          /\ IF Repaired /\ stopping
-             THEN UNCHANGED discv
-             ELSE /\ discAttr' = gen /\ discOpen' = discOpen \cup {gen}
-                  /\ given' = [given EXCEPT ![gen] = reg] /\ dthr' = [dthr EXCEPT ![gen] = "created"]
-                  /\ UNCHANGED portsOK
+M_Disc == /\ mpc = "disc"
+          /\ discAttr' = gen /\ discOpen' = discOpen \cup {gen}
+          /\ given' = [given EXCEPT ![gen] = reg] /\ dthr' = [dthr EXCEPT ![gen] = "created"]
+          /\ UNCHANGED portsOK
           /\ mpc' = "join"
           /\ UNCHANGED <<gen, kind, rflag, stopping, lock, mods, ifdict, reg, hooks, downlog, reports, ann, annOK,
                          bootAfterShut>> /\ UNCHANGED <<ifv, isreq, reqv>>
 (* for t in iface_threads: t.join() *)
-M_Join == /\ mpc = "join"
+(* repaired: the wind-down has begun - from now on restart requests are ignored *)
+M_Join == /\ mpc = "join" /\ (Repaired => lock = "free")
           /\ \A i \in Ifs : ipc[i] = "end"
-          /\ mpc' = "shutmods"
-          /\ UNCHANGED <<gen, kind, rflag, stopping, lock, mods, ifdict, reg, hooks, downlog, reports, ann, annOK,
+          /\ mpc' = "shutmods" /\ stopping' = (stopping \/ Repaired)
+          /\ UNCHANGED <<gen, kind, rflag, lock, mods, ifdict, reg, hooks, downlog, reports, ann, annOK,
                          bootAfterShut>> /\ UNCHANGED <<ifv, isreq, reqv, discv>>
 M_ShutMods == /\ mpc = "shutmods"
               /\ mods' = [mods EXCEPT ![gen] = "down"] /\ mpc' = "hooktest"
@@ -156,7 +165,7 @@ M_LogDown == /\ mpc = "logdown"
                             bootAfterShut>> /\ UNCHANGED <<ifv, isreq, reqv, discv>>
 
 Main == M_LoopTest \/ M_Clear \/ M_LoopHead \/ M_Cfg \/ M_Dict \/ M_Spawn \/ M_Wait \/ M_Report \/ M_NoIf
-        \/ M_Prop \/ M_Disc \/ M_Join \/ M_ShutMods \/ M_HookTest \/ M_LogDown
+        \/ M_Prop \/ M_PropDisc \/ M_Disc \/ M_Join \/ M_ShutMods \/ M_HookTest \/ M_LogDown
 
 ------------------------------------------------------------------------------
 (* _interfaceThread of interface i *)
@@ -167,38 +176,39 @@ IfUnch == UNCHANGED <<mainv, rflag, stopping, lock, ifdict, reqv, discv>>
 I_Construct(i) == /\ ipc[i] = "new"
                   /\ kind[i] = "late" => mpc \notin {"spawn", "wait"}
                   /\ ipc' = [ipc EXCEPT ![i] = IF kind[i] = "fail" THEN "excfail" ELSE "bound"]
-                  /\ UNCHANGED <<reg, isreq, isdone, trig, failed>> /\ IfUnch
+                  /\ UNCHANGED <<reg, isreq, isdone, trig, failed, crashed>> /\ IfUnch
 (* with lock: self.interfaces[iface] = interface - the repaired design gives up when a stop was requested *)
 I_Register(i) == /\ ipc[i] = "bound" /\ lock = "free"
                  /\ IF Repaired /\ stopping
                     THEN ipc' = [ipc EXCEPT ![i] = "skip"] /\ UNCHANGED reg
                     ELSE ipc' = [ipc EXCEPT ![i] = "registered"] /\ reg' = reg \cup {i}
-                 /\ UNCHANGED <<isreq, isdone, trig, failed>> /\ IfUnch
+                 /\ UNCHANGED <<isreq, isdone, trig, failed, crashed>> /\ IfUnch
 I_Trigger(i) == /\ ipc[i] \in {"registered", "skip"}
                 /\ trig' = trig \cup {i}
                 /\ ipc' = [ipc EXCEPT ![i] = IF @ = "skip" THEN "served" ELSE "preserve"]
-                /\ UNCHANGED <<reg, isreq, isdone, failed>> /\ IfUnch
+                /\ UNCHANGED <<reg, isreq, isdone, failed, crashed>> /\ IfUnch
 (* serve_forever: clears the 'is shut down' event, loops until asked to stop *)
 I_ServeBegin(i) == /\ ipc[i] = "preserve"
                    /\ isdone' = [isdone EXCEPT ![i] = FALSE] /\ ipc' = [ipc EXCEPT ![i] = "serving"]
-                   /\ UNCHANGED <<reg, isreq, trig, failed>> /\ IfUnch
+                   /\ UNCHANGED <<reg, isreq, trig, failed, crashed>> /\ IfUnch
 I_ServeEnd(i) == /\ ipc[i] = "serving" /\ isreq[i]
                  /\ isreq' = [isreq EXCEPT ![i] = FALSE] /\ isdone' = [isdone EXCEPT ![i] = TRUE]
                  /\ ipc' = [ipc EXCEPT ![i] = "served"]
-                 /\ UNCHANGED <<reg, trig, failed>> /\ IfUnch
+                 /\ UNCHANGED <<reg, trig, failed, crashed>> /\ IfUnch
 I_Crash(i) == /\ Crashes /\ ipc[i] = "serving" /\ ~isreq[i]
               /\ isdone' = [isdone EXCEPT ![i] = TRUE] /\ ipc' = [ipc EXCEPT ![i] = "crashed"]
+              /\ crashed' = crashed \cup {i}
               /\ UNCHANGED <<reg, isreq, trig, failed>> /\ IfUnch
 (* server_close() by `with` *)
 I_Close(i) == /\ ipc[i] \in {"served", "crashed"}
               /\ ipc' = [ipc EXCEPT ![i] = IF @ = "crashed" THEN "excfail" ELSE "closing"]
-              /\ UNCHANGED <<reg, isreq, isdone, trig, failed>> /\ IfUnch
+              /\ UNCHANGED <<reg, isreq, isdone, trig, failed, crashed>> /\ IfUnch
 (* with lock: interfaces.remove(iface)   resp.   failed[iface] = e; start_cb() *)
 I_Finish(i) == /\ ipc[i] \in {"closing", "excfail"} /\ lock = "free"
                /\ failed' = IF ipc[i] = "excfail" THEN failed \cup {i} ELSE failed
                /\ trig' = IF ipc[i] = "excfail" THEN trig \cup {i} ELSE trig
                /\ ipc' = [ipc EXCEPT ![i] = "end"]
-               /\ UNCHANGED <<reg, isreq, isdone>> /\ IfUnch
+               /\ UNCHANGED <<reg, isreq, isdone, crashed>> /\ IfUnch
 
 Iface(i) == I_Construct(i) \/ I_Register(i) \/ I_Trigger(i) \/ I_ServeBegin(i) \/ I_ServeEnd(i) \/ I_Crash(i)
             \/ I_Close(i) \/ I_Finish(i)
@@ -208,7 +218,7 @@ Iface(i) == I_Construct(i) \/ I_Register(i) \/ I_Trigger(i) \/ I_ServeBegin(i) \
 D_Run(g) == /\ dthr[g] = "created"
             /\ IF g \in discOpen
                THEN /\ dthr' = [dthr EXCEPT ![g] = "running"]
-                    /\ portsOK' = (portsOK /\ g = gen /\ given[g] \subseteq {i \in Ifs : Accepting(i)})
+                    /\ portsOK' = (portsOK /\ g = gen /\ given[g] \subseteq {i \in Ifs : Accepting(i) \/ i \in crashed})
                ELSE dthr' = [dthr EXCEPT ![g] = "ended"] /\ UNCHANGED portsOK
             /\ UNCHANGED <<mainv, rflag, stopping, lock, ifdict, reg, ifv, isreq, reqv, discAttr, discOpen, given>>
 D_End(g) == /\ dthr[g] = "running" /\ g \notin discOpen
@@ -228,7 +238,7 @@ R_Begin(r) == /\ rpc[r] = "idle"
 (* pinned restart(): if not self._restart: *)
 R_Test(r) == /\ rpc[r] = "test"
              /\ rpc' = [rpc EXCEPT ![r] = IF rflag THEN "done" ELSE "set"]
-             /\ racc' = [racc EXCEPT ![r] = IF rflag THEN 0 ELSE @]
+             /\ racc' = [racc EXCEPT ![r] = IF rflag THEN -2 ELSE @]
              /\ UNCHANGED <<rflag, stopping, lock, isreq, discAttr, discOpen, rdict, rseen, rsize, rcur, rexc>>
              /\ ReqUnch
 (* pinned: self._restart = True / False *)
@@ -240,8 +250,8 @@ R_Set(r) == /\ rpc[r] = "set"
             /\ ReqUnch
 (* repaired: with self._lock: decide *)
 R_Acquire(r) == /\ rpc[r] = "lock" /\ lock = "free"
-                /\ IF RKind[r] = "restart" /\ (stopping \/ mpc = "returned")
-                   THEN /\ rpc' = [rpc EXCEPT ![r] = "done"] /\ racc' = [racc EXCEPT ![r] = 0]
+                /\ IF RKind[r] = "restart" /\ stopping
+                   THEN /\ rpc' = [rpc EXCEPT ![r] = "done"] /\ racc' = [racc EXCEPT ![r] = -2]
                         /\ UNCHANGED <<rflag, stopping, lock>>
                    ELSE /\ lock' = r /\ stopping' = TRUE /\ rflag' = (RKind[r] = "restart")
                         /\ racc' = [racc EXCEPT ![r] = gen]
@@ -322,12 +332,12 @@ ShutdownFinal == ~bootAfterShut
 (* E1 *)
 RequestsReturn == \A r \in Req : ~rexc[r]
 (* exactly one generation per accepted restart request *)
-OneGenPerRestart == gen <= 1 + Cardinality({r \in Restarters : racc[r] > 0 \/ (racc[r] = 0 /\ FALSE)}) + (IF \E r \in Restarters : racc[r] = 0 THEN 0 ELSE 0)
+OneGenPerRestart == gen <= 1 + Cardinality({r \in Restarters : racc[r] >= 0})
 (* S2 a shutdown request is never lost *)
 ShutdownHonoured == \A r \in Stoppers : (rpc[r] = "done") ~> (mpc = "returned")
 (* R2 an accepted restart request leads to a new generation unless a shutdown was requested *)
 RestartHonoured == \A r \in Restarters :
-                      (rpc[r] = "done" /\ racc[r] > 0) ~> (gen > racc[r] \/ \E q \in Stoppers : rpc[q] # "idle" \/ mpc = "returned")
+                      (rpc[r] = "done" /\ racc[r] >= 0) ~> (gen > racc[r] \/ \E q \in Stoppers : rpc[q] # "idle" \/ mpc = "returned")
 (* no thread waits for ever *)
 Terminates == \A r \in Req : (rpc[r] # "idle") ~> (rpc[r] = "done")
 TypeOK == /\ gen \in 0 .. MaxGen /\ lock \in {"free"} \cup Req /\ reg \subseteq Ifs /\ downlog \in 0 .. 1
